@@ -76,3 +76,70 @@ __CPROVER_ensures(vg_gen != __CPROVER_old(vg_gen) ==> !VG_SAME(f->shared_fs->fs_
 ;
 void h_fileset_reload_dfcc(void) { struct mtbl_fileset *f; mtbl_fileset_reload(f); VG_REACH("mtbl_fileset_reload returns"); }
 void h_fileset_reload_now_dfcc(void) { struct mtbl_fileset *f; mtbl_fileset_reload_now(f); VG_REACH("mtbl_fileset_reload_now returns"); }
+
+/* ------------------------------------------------------------------ source operations and iterator close, with
+ * mtbl_fileset_reload replaced by ITS OWN contract above (modular composition: callers see only the contract). */
+struct { unsigned calls; struct mtbl_merger *m; unsigned current_at_call; unsigned long iters_at_call; unsigned reload_calls_at_call; } vg_msrc;
+struct { unsigned calls; struct mtbl_iter *ret; } vg_sit;
+struct { unsigned calls; void *clos; struct mtbl_iter *ret; } vg_iin;
+struct { unsigned calls; struct mtbl_iter *it; unsigned long iters_at_call; } vg_idel;
+static struct fileset_iter vg_fit_obj;
+
+void *my_calloc__cap(size_t a, size_t b) __CPROVER_requires(1) __CPROVER_assigns(__CPROVER_object_whole(&vg_fit_obj)) __CPROVER_ensures(__CPROVER_return_value == (void *)&vg_fit_obj) ;
+void free__cap(void *p) __CPROVER_requires(1) __CPROVER_assigns() __CPROVER_ensures(1) ;
+const struct mtbl_source *mtbl_merger_source__cap(struct mtbl_merger *m)
+__CPROVER_requires(vg_msrc.calls == 0)
+__CPROVER_assigns(__CPROVER_object_whole(&vg_msrc))
+__CPROVER_ensures(vg_msrc.calls == 1 && vg_msrc.m == m && vg_msrc.current_at_call == (unsigned)(vg_mgen == vg_gen) && vg_msrc.iters_at_call == vg_sfs->n_iters && vg_msrc.reload_calls_at_call == vg_clk.calls + 1000 * vg_rl.calls)
+;
+struct mtbl_iter *mtbl_source_iter__cap(const struct mtbl_source *s)
+__CPROVER_requires(vg_sit.calls == 0)
+__CPROVER_assigns(__CPROVER_object_whole(&vg_sit))
+__CPROVER_ensures(vg_sit.calls == 1 && __CPROVER_return_value == vg_sit.ret)
+;
+struct mtbl_iter *mtbl_iter_init__cap(mtbl_iter_seek_func a, mtbl_iter_next_func b, mtbl_iter_free_func c, void *clos)
+__CPROVER_requires(vg_iin.calls == 0)
+__CPROVER_assigns(__CPROVER_object_whole(&vg_iin))
+__CPROVER_ensures(vg_iin.calls == 1 && vg_iin.clos == clos && __CPROVER_return_value == vg_iin.ret && vg_iin.ret != NULL)
+;
+void mtbl_iter_destroy__cap(struct mtbl_iter **it)
+__CPROVER_requires(vg_idel.calls == 0)
+__CPROVER_assigns(__CPROVER_object_whole(&vg_idel), *it)
+__CPROVER_ensures(vg_idel.calls == 1 && vg_idel.it == __CPROVER_old(*it) && *it == NULL && vg_idel.iters_at_call == vg_sfs->n_iters)
+;
+#define VG_F ((struct mtbl_fileset *)clos)
+struct mtbl_iter *fileset_source_iter__spec(void *clos)
+__CPROVER_requires(__CPROVER_is_fresh(clos, sizeof(struct mtbl_fileset)) && __CPROVER_is_fresh(VG_F->shared_fs, sizeof(struct shared_fileset)) && vg_sfs == VG_F->shared_fs && VG_F->shared_fs->my_fs != NULL)
+__CPROVER_requires(vg_rl.calls == 0 && vg_ri.calls == 0 && vg_clk.calls == 0 && vg_seq == 0 && vg_msrc.calls == 0 && vg_sit.calls == 0 && vg_iin.calls == 0 && VG_F->shared_fs->n_iters <= 1000000)
+__CPROVER_requires(VG_SAME(VG_F->fs_last, VG_F->shared_fs->fs_last) ==> vg_mgen == vg_gen)
+__CPROVER_requires(vg_now.tv_sec >= VG_F->shared_fs->fs_last.tv_sec && vg_now.tv_sec >= 0 && VG_F->shared_fs->fs_last.tv_sec >= 0 && !VG_SAME(vg_now, VG_F->shared_fs->fs_last) && !VG_SAME(vg_now, VG_F->fs_last))
+__CPROVER_assigns(VG_F->fs_last, VG_F->shared_fs->fs_last, VG_F->shared_fs->reload_needed, VG_F->shared_fs->n_loaded, VG_F->shared_fs->n_unloaded, VG_F->shared_fs->n_iters, vg_gen, vg_mgen, vg_seq,
+                  __CPROVER_object_whole(&vg_rl), __CPROVER_object_whole(&vg_ri), __CPROVER_object_whole(&vg_clk), __CPROVER_object_whole(&vg_msrc), __CPROVER_object_whole(&vg_sit), __CPROVER_object_whole(&vg_iin), __CPROVER_object_whole(&vg_fit_obj))
+/* the new iterator is taken from the handle's merger AFTER the reload step, when that merger is built from the current generation,
+ * and before it is counted as open (the reload step saw the count without it) */
+__CPROVER_ensures(vg_msrc.calls == 1 && vg_msrc.m == VG_F->merger && vg_msrc.current_at_call == 1 && vg_msrc.iters_at_call == __CPROVER_old(VG_F->shared_fs->n_iters))
+/* it pins the shared fileset: one more open iterator */
+__CPROVER_ensures(VG_F->shared_fs->n_iters == __CPROVER_old(VG_F->shared_fs->n_iters) + 1)
+/* a pending forced reload (reload_now deferred earlier) has happened by now when no iterator was open */
+__CPROVER_ensures((__CPROVER_old(VG_F->shared_fs->reload_needed) && __CPROVER_old(VG_F->shared_fs->n_iters) == 0) ==> (vg_rl.calls == 1 && !VG_F->shared_fs->reload_needed))
+__CPROVER_ensures(__CPROVER_old(VG_F->shared_fs->n_iters) > 0 ==> (vg_rl.calls == 0 && vg_gen == __CPROVER_old(vg_gen)))
+__CPROVER_ensures(vg_sit.calls == 1 && vg_iin.calls == 1 && vg_iin.clos == (void *)&vg_fit_obj && vg_fit_obj.iter == vg_sit.ret && vg_fit_obj.fs == VG_F && __CPROVER_return_value == vg_iin.ret)
+;
+void h_fileset_source_iter_dfcc(void) { void *c; struct mtbl_iter *it = fileset_source_iter(c); VG_REACH("fileset_source_iter returns"); }
+
+#define VG_IT ((struct fileset_iter *)v)
+void fileset_iter_free__spec(void *v)
+__CPROVER_requires(__CPROVER_is_fresh(v, sizeof(struct fileset_iter)) && __CPROVER_is_fresh(VG_IT->fs, sizeof(struct mtbl_fileset)) && __CPROVER_is_fresh(VG_IT->fs->shared_fs, sizeof(struct shared_fileset)))
+__CPROVER_requires(vg_sfs == VG_IT->fs->shared_fs && VG_IT->fs->shared_fs->my_fs != NULL && VG_IT->fs->shared_fs->n_iters >= 1 && VG_IT->fs->shared_fs->n_iters <= 1000000)
+__CPROVER_requires(vg_rl.calls == 0 && vg_ri.calls == 0 && vg_clk.calls == 0 && vg_seq == 0 && vg_idel.calls == 0)
+__CPROVER_requires(VG_SAME(VG_IT->fs->fs_last, VG_IT->fs->shared_fs->fs_last) ==> vg_mgen == vg_gen)
+__CPROVER_requires(vg_now.tv_sec >= VG_IT->fs->shared_fs->fs_last.tv_sec && vg_now.tv_sec >= 0 && VG_IT->fs->shared_fs->fs_last.tv_sec >= 0 && !VG_SAME(vg_now, VG_IT->fs->shared_fs->fs_last) && !VG_SAME(vg_now, VG_IT->fs->fs_last))
+__CPROVER_assigns(VG_IT->iter, VG_IT->fs->fs_last, VG_IT->fs->shared_fs->fs_last, VG_IT->fs->shared_fs->reload_needed, VG_IT->fs->shared_fs->n_loaded, VG_IT->fs->shared_fs->n_unloaded, VG_IT->fs->shared_fs->n_iters, vg_gen, vg_mgen, vg_seq,
+                  __CPROVER_object_whole(&vg_rl), __CPROVER_object_whole(&vg_ri), __CPROVER_object_whole(&vg_clk), __CPROVER_object_whole(&vg_idel))
+/* closing an iterator unpins: one fewer; the merged iterator underneath is destroyed */
+__CPROVER_ensures(vg_sfs->n_iters == __CPROVER_old(vg_sfs->n_iters) - 1 && vg_idel.calls == 1 && vg_idel.it == __CPROVER_old(VG_IT->iter))
+/* snapshots stay pinned while others are open; when the LAST iterator closes a deferred reload_now takes effect at once */
+__CPROVER_ensures(__CPROVER_old(vg_sfs->n_iters) > 1 ==> (vg_rl.calls == 0 && vg_gen == __CPROVER_old(vg_gen)))
+__CPROVER_ensures((__CPROVER_old(vg_sfs->n_iters) == 1 && __CPROVER_old(vg_sfs->reload_needed)) ==> (vg_rl.calls == 1 && !vg_sfs->reload_needed))
+;
+void h_fileset_iter_free_dfcc(void) { void *v; fileset_iter_free(v); VG_REACH("fileset_iter_free returns"); }
